@@ -226,11 +226,13 @@ def c09(ctx):
 def c14(ctx):
     t = ctx.tier == "thorough"
     _olc_stages(ctx, "C14", scaled(16000 if t else 800), scaled(32000 if t else 1600), 60)
+    ctx.stage("oom-olc", "oom", "dbg-oom", worker_args(ctx.seed, scaled(40000 if t else 1600), 16, ["--prop", "C14"]), timeout=3600, build_kwargs=OOM_BUILD)
+    ctx.floors = ctx.floors + [("olc_lock_sweeps", 1000)]
     ctx.rule = OLC_RULE + ("Liveness is decided logically by the scheduler: DEADLOCK when every unfinished thread has reached a spin point 50 times in a row while "
                            "no thread performed a write-kind step; LIVELOCK when an execution exceeds 400000 steps; after every execution a single-threaded sweep (get "
                            "of every key, full forward and reverse scan, insert+remove probes next to every operation key at three byte positions) runs with the "
                            "scheduler still active, so a lock left behind is reported as a deadlock of the sweep. Distinct+non-trivial: (program, switch signature) "
-                           "new and >= 1 spin or restart observed")
+                           "new and >= 1 spin or restart observed. Additionally every allocation-failure point of C08 on olc_db is followed by the same kind of sweep")
 
 
 # ------------------------------------------------------------- E2 qsbr_conc
@@ -272,6 +274,118 @@ def c06(ctx):
                             "count at every action boundary with no start/exit/pause/resume in flight; every request made before the drain is freed by the end of the third "
                             "lockstep round; after all but one thread unregistered, two quiescent states leave the orphan lists, the thread's own lists and the harness's pending "
                             "set empty. Distinct+non-trivial: as C05 and >= 1 request was orphaned or a leaving thread handled orphans")
+
+
+# ----------------------------------------------------------------- E3 oom
+OOM_BUILD = {"extra_repo_cpp": ["test_heap.cpp"]}
+OOM_CASES = ["insert/first-leaf", "insert/leaf-split", "insert/prefix-split", "insert/grow-to-I16", "insert/grow-to-I48", "insert/grow-to-I256", "insert/add-to-node",
+             "remove/shrink-from-I16", "remove/shrink-from-I48", "remove/shrink-from-I256"]
+
+
+@prop("C08", level="fault_enumeration")
+def c08(ctx):
+    t = ctx.tier == "thorough"
+    ctx.stage("inject", "oom", "dbg-oom", worker_args(ctx.seed, scaled(140000 if t else 5600), 16, ["--prop", "C08"]), timeout=3600, build_kwargs=OOM_BUILD)
+    ctx.rule = ("for operations of generated histories (C01 key families; db, mutex_db, olc_db with a single registered thread; uint64 and byte-string keys): snapshot "
+                "{entries and values via scan, empty(), node counts, growth/shrink/prefix-split counters, reported memory, live allocate_aligned blocks (hooks), QSBR "
+                "state word and request-list getters}, then for k = 1, 2, ... the repo's allocation_failure_injector (covering operator new through test_heap.cpp) "
+                "fails the k-th allocation: the failure must surface as std::bad_alloc, the snapshot must be unchanged, on olc_db a single-threaded sweep under the "
+                "scheduler must terminate; the first k that completes is the retry and must return the model's result - so k covers exactly the allocations the "
+                "operation makes. Every operation is injected on trees of <= 48 entries, structural operations always, others with probability 48/n. Over-long (2^32 "
+                "byte, MAP_NORESERVE) keys and values must raise std::length_error without a trace. QSBR: qsbr_resume, qsbr_thread construction, "
+                "on_next_epoch_deallocate (second thread parked so that the request queues). evaluations = (operation, k) injections; distinct+non-trivial = "
+                "(operation kind, structural case, class, key kind, k) is new and the fault really surfaced as an exception")
+    ctx.assumptions = ["one fault per operation; the injector keeps failing every later allocation until disarmed (at least as hostile during unwinding)",
+                       "harness allocations happen only while the injector is disarmed or paused (tracker callbacks)",
+                       "no sanitizer in this build (replaced operator new); leak accounting by the allocation hooks"]
+    tags = ["%s.%s" % (c, k) for c in ("db", "mutex_db", "olc_db") for k in ("u64", "key_view")]
+    ctx.floors = [("surfaced.%s.%s" % (c, tag), 1) for c in OOM_CASES for tag in tags]
+    ctx.floors += [("injections.qsbr_resume", 10), ("injections.qsbr_thread", 10), ("injections.on_next_epoch_deallocate", 10), ("olc_lock_sweeps", 1000),
+                   ("length_error_key_cases", 5), ("length_error_value_cases", 5)]
+
+
+# ------------------------------------------------------------- E6 cfgdiff
+CFG_SUBSET = ["cfg-avx2-stats-assert-spin1", "cfg-avx2-nostats-ndebug-spin2", "cfg-sse41-stats-ndebug-spin2",
+              "cfg-sse41-nostats-assert-spin1", "cfg-avx2-stats-ndebug-spin1", "cfg-sse41-stats-assert-spin2"]
+
+
+def _cfg_all():
+    from . import build as B
+    return sorted(c for c in B.CONFIGS if c.startswith("cfg-"))
+
+
+@prop("C16")
+def c16(ctx):
+    from . import build as B
+    t = ctx.tier == "thorough"
+    cfgs = _cfg_all() if t else CFG_SUBSET
+    ncases = scaled(5600 if t else 700)
+    nworkers = 8 if t else 2
+    try:
+        B.build_many([("cfgdiff", c, {}) for c in cfgs], jobs=8)
+    except B.BuildError as e:
+        ctx.inconclusive.append("build failed: %s" % str(e)[:800])
+        return
+    per_cfg = {}
+    from concurrent.futures import ThreadPoolExecutor
+    args = worker_args(ctx.seed, ncases, nworkers, ["--ops", "250", "--mtops", "1500"])
+
+    def run_cfg(c):
+        return c, ctx.stage("run-" + c, "cfgdiff", c, args, timeout=3600, jobs=nworkers)
+    with ThreadPoolExecutor(max_workers=max(1, 16 // nworkers)) as ex:
+        for c, rs in ex.map(run_cfg, cfgs):
+            per_cfg[c] = rs
+    ref = cfgs[0]
+    compared = 0
+    for c in cfgs:
+        ok_reports = [r for r in per_cfg[c] if r.report is not None and r.crash is None]
+        if len(ok_reports) != len(args):
+            continue  # the crash itself has been turned into a violation by the stage
+        for wi, r in enumerate(per_cfg[c]):
+            rr = per_cfg[ref][wi]
+            if rr.report is None or r.report is None:
+                continue
+            n, nr = r.report["notes"], rr.report["notes"]
+            compared += len(n.get("per_case", []))
+            if c == ref:
+                continue
+            for kind, idx in (("trace", 1), ("stats", 2)):
+                if kind == "stats" and ("stats_hash" not in n or "stats_hash" not in nr):
+                    continue
+                key = kind + "_hash"
+                if n.get(key) == nr.get(key):
+                    continue
+                first = None
+                for a_, b_ in zip(n["per_case"], nr["per_case"]):
+                    if a_[idx] != b_[idx]:
+                        first = (a_[0], a_[idx], b_[idx])
+                        break
+                what = ("%s hash differs between %s and %s for the same seed; first divergent case %s"
+                        % (kind, c, ref, first[0] if first else "?"))
+                ctx.add_violation("cfgdiff/%s-differs" % kind, what,
+                                  witness={"config_a": c, "config_b": ref, "case": first[0] if first else None,
+                                           "hash_a": first[1] if first else None, "hash_b": first[2] if first else None,
+                                           "case_kind": ["db.u64", "db.key_view", "mutex_db.u64", "mutex_db.key_view", "olc_db.u64", "olc_db.key_view", "olc_db multithreaded"][int(first[0]) % 7] if first else None},
+                                  replay={"engine": "cfgdiff", "cfg": c, "build_kwargs": {},
+                                          "args": ["--seed", str(ctx.seed), "--ops", "250", "--mtops", "1500", "--only", str(first[0] if first else 0)]})
+    ctx.evaluations = compared
+    ctx.distinct_counted = max(0, (len(cfgs) - 1)) * ncases if compared else 0
+    ctx.hashes = set()
+    ctx.samples = [{"configurations": cfgs, "cases_per_configuration": ncases, "seed": ctx.seed,
+                    "reference_trace_hashes": [r.report["notes"].get("trace_hash") for r in per_cfg[ref] if r.report]}]
+    ctx.counters["configurations"] = len(cfgs)
+    ctx.counters["assertion_enabled_configurations"] = len([c for c in cfgs if "-assert-" in c])
+    ctx.counters["cases_compared"] = compared
+    ctx.exhaustive = False
+    ctx.rule = ("the same seeded cases (histories on db / mutex_db / olc_db x uint64 / byte-string keys of <= 8 bytes with scans incl. fall-off bounds, on olc_db scans "
+                "followed by removals that free the scanned inner nodes; every 7th case a 4-thread olc_db section on disjoint key ranges under a shared root) executed "
+                "in %d build configurations (%s); per case a hash of every result / get bytes / scan sequence and, in statistics builds, of node counts and "
+                "growth/shrink/prefix-split counters after every operation; hashes must agree with the reference configuration, every assertion-enabled build "
+                "must exit cleanly. evaluations = (configuration, case) executions compared; distinct+non-trivial = (configuration pair with the reference, case) "
+                "comparisons, each distinct by construction" % (len(cfgs), "all 16" if t else "a pairwise-covering subset of the 16"))
+    ctx.assumptions = ["only schedule-independent outputs are hashed; reported memory use is excluded (node sizes legitimately differ between assertion/NDEBUG and AVX2/SSE4.1 builds)",
+                       "ARM/NEON and MSVC code paths cannot be built in this sandbox", "hooks are off in these builds: the plain library"]
+    ctx.floors = [("cases_compared", len(cfgs) * ncases)]
 
 
 # ---------------------------------------------------------------- E7 qptr
@@ -344,7 +458,9 @@ def setup_specs():
         ("olc_conc", "dbg-asan", {}),
         ("olc_conc", "rel", {}),
         ("qsbr_conc", "dbg-asan", {}), ("qsbr_conc", "rel", {}),
+        ("oom", "dbg-oom", OOM_BUILD),
         ("lock_conc", "dbg", {}),
+    ] + [("cfgdiff", c, {}) for c in CFG_SUBSET] + [
         ("qptr", "dbg", {}), ("qptr", "rel", {}), ("qptr", "dbg-asan", {}),
         ("mutex_lin", "rel", {"libs": ["-ldl"]}), ("mutex_lin", "rel-tsan", {"libs": ["-ldl"]}),
         ("lock_conc", "rel", {}),
